@@ -16,8 +16,9 @@ pub struct TransactionState {
     pub in_transaction: bool,
     /// Queued commands
     pub queued_commands: VecDeque<Vec<RespFrame>>,
-    /// Watched keys with their baseline modification counters (key -> counter when watched)
-    pub watched_keys: HashMap<Vec<u8>, u64>,
+    /// Watched keys with their baseline modification counters ((database, key) -> counter when watched).
+    /// A watch belongs to the database that was selected when WATCH ran.
+    pub watched_keys: HashMap<(usize, Vec<u8>), u64>,
     /// Whether the transaction is aborted due to watched key changes
     pub aborted: bool,
 }
@@ -56,8 +57,8 @@ pub fn handle_exec(
     }
     
     // Check watched keys
-    for (key, baseline_counter) in &conn.transaction_state.watched_keys {
-        if storage.was_modified_since(conn.db_index, key, *baseline_counter)? {
+    for ((db, key), baseline_counter) in &conn.transaction_state.watched_keys {
+        if storage.was_modified_since(*db, key, *baseline_counter)? {
             conn.transaction_state.watched_keys.clear();
             return Ok(RespFrame::null_array());
         }
@@ -110,19 +111,20 @@ pub fn handle_watch(conn: &mut Connection, parts: &[RespFrame], storage: &Arc<St
                 
                 // A key that is already watched keeps its first baseline: a change made
                 // between the first WATCH and this one must still abort EXEC.
+                let key = (conn.db_index, key);
                 if conn.transaction_state.watched_keys.contains_key(&key) {
                     continue;
                 }
                 
                 // Register the watch with storage engine
-                match storage.register_watch(conn.db_index, &key) {
+                match storage.register_watch(key.0, &key.1) {
                     Ok(baseline_counter) => {
                         // Store the baseline counter for violation detection
                         conn.transaction_state.watched_keys.insert(key, baseline_counter);
                     }
                     Err(_) => {
                         // If we can't register, use fallback counter
-                        match storage.get_modification_counter(conn.db_index, &key) {
+                        match storage.get_modification_counter(key.0, &key.1) {
                             Ok(baseline_counter) => {
                                 conn.transaction_state.watched_keys.insert(key, baseline_counter);
                             }
@@ -145,8 +147,8 @@ pub fn handle_watch(conn: &mut Connection, parts: &[RespFrame], storage: &Arc<St
 /// Handle UNWATCH command - Unwatch all keys
 pub fn handle_unwatch(conn: &mut Connection, storage: &Arc<StorageEngine>) -> Result<RespFrame> {
     // Unregister all watches
-    for key in conn.transaction_state.watched_keys.keys() {
-        let _ = storage.unregister_watch(conn.db_index, key);
+    for (db, key) in conn.transaction_state.watched_keys.keys() {
+        let _ = storage.unregister_watch(*db, key);
     }
     
     conn.transaction_state.watched_keys.clear();
